@@ -64,6 +64,37 @@ where
     vcommon::catch(|| sim.exhaustive(thunk))
 }
 
+unsafe extern "C" {
+    fn flock(fd: i32, operation: i32) -> i32;
+}
+
+/// Cross-process lock around `SimFlow::compiled()`. With RUSTFLAGS set (bin/check sets it) the simulator builds every
+/// flow of this crate as the same cargo example (`sim-dylib`, selected by an env var) in one shared directory and
+/// copies the artifact afterwards without holding any lock, so two processes compiling *different* flows of
+/// this crate at the same time can hand each other the wrong dylib (observed: every execution then fails with
+/// `Option::unwrap()` on a missing port). Serialising build+copy across processes removes the race.
+pub fn compile_locked<T>(build: impl FnOnce() -> T) -> T {
+    use std::os::fd::AsRawFd;
+    let dir = std::env::var("CARGO_TARGET_DIR")
+        .map(std::path::PathBuf::from)
+        .unwrap_or_else(|_| std::env::temp_dir());
+    let file = std::fs::OpenOptions::new()
+        .create(true)
+        .truncate(false)
+        .write(true)
+        .open(dir.join("hv_sim_b.compile.lock"))
+        .ok();
+    if let Some(f) = &file {
+        // SAFETY: flock(2) on a descriptor we own; LOCK_EX = 2. Released when `file` is dropped.
+        unsafe {
+            flock(f.as_raw_fd(), 2);
+        }
+    }
+    let out = build();
+    drop(file);
+    out
+}
+
 /// What a worker (thread or child process) observed; merged into the `Reporter` by the test's main thread.
 #[derive(Default, serde::Serialize, serde::Deserialize)]
 pub struct Partial {
